@@ -9,6 +9,7 @@ import (
 
 	"diagonal.works/b6"
 	"diagonal.works/b6/api"
+	"diagonal.works/b6/api/functions"
 	b6grpc "diagonal.works/b6/grpc"
 	"diagonal.works/b6/ingest"
 	pb "diagonal.works/b6/proto"
@@ -425,6 +426,29 @@ type c40Service struct {
 	svc    pb.B6Server
 	worlds *ingest.MutableWorlds
 	parsed map[string]*pb.NodeProto
+	// the UI's evaluator shares worlds and lock with the gRPC service, as in
+	// cmd/b6: ui.lockedHandler takes the read lock around every request
+	lock *ssync.RWMutex
+	ev   *api.Evaluator
+}
+
+// callUI sends a request through api.Evaluator the way the UI does.
+func (s *c40Service) callUI(in c40In) c40Out {
+	e, err := b6.ExpressionFromProto(s.parsed[in.expression()])
+	if err != nil {
+		panic(fmt.Sprintf("harness: %v", err))
+	}
+	root := c40Worlds[in.World]
+	s.lock.RLock()
+	v, err := s.ev.EvaluateExpression(e, root)
+	s.lock.RUnlock()
+	if err != nil {
+		return c40Out{Err: true, ErrMsg: err.Error()}
+	}
+	if in.Kind == "read" {
+		return c40Out{Val: fmt.Sprint(v)}
+	}
+	return c40Out{}
 }
 
 // prepare parses an expression into its request proto (main task only).
@@ -452,7 +476,8 @@ func newC40Service(rc *RC, g *cityGen) (*c40Service, []*fspec, error) {
 	}
 	worlds := &ingest.MutableWorlds{Base: bw}
 	lock := &ssync.RWMutex{}
-	return &c40Service{svc: b6grpc.NewB6Service(worlds, api.Options{Cores: 1}, lock), worlds: worlds, parsed: map[string]*pb.NodeProto{}}, base, nil
+	ev := &api.Evaluator{Worlds: worlds, FunctionSymbols: functions.Functions(), Adaptors: functions.Adaptors(), Options: api.Options{Cores: 1}, Lock: lock}
+	return &c40Service{svc: b6grpc.NewB6Service(worlds, api.Options{Cores: 1}, lock), worlds: worlds, parsed: map[string]*pb.NodeProto{}, lock: lock, ev: ev}, base, nil
 }
 
 func (s *c40Service) call(in c40In) c40Out {
@@ -613,16 +638,32 @@ func runC40(rc *RC) {
 		}
 	}
 	ops := make([][]c40Op, nClients)
+	viaUI := make([]bool, nClients)
+	for c := range viaUI {
+		viaUI[c] = rc.Pct(35)
+		if viaUI[c] {
+			rc.Probe("client-via-ui-evaluator")
+		}
+	}
 	var wg ssync.WaitGroup
 	for c := 0; c < nClients; c++ {
 		wg.Add(1)
 		c := c
-		simrt.GoNamed(fmt.Sprintf("client%d", c), func() {
+		name := fmt.Sprintf("client%d", c)
+		if viaUI[c] {
+			name += "(ui)"
+		}
+		simrt.GoNamed(name, func() {
 			defer wg.Done()
 			for _, in := range plans[c] {
 				op := c40Op{client: c, in: in, call: simrt.Stamp()}
 				ops[c] = append(ops[c], op)
-				out := s.call(in)
+				var out c40Out
+				if viaUI[c] && in.Kind != "list" && in.Kind != "delete" {
+					out = s.callUI(in)
+				} else {
+					out = s.call(in)
+				}
 				i := len(ops[c]) - 1
 				ops[c][i].out, ops[c][i].ret, ops[c][i].returned = out, simrt.Stamp(), true
 			}
